@@ -130,6 +130,12 @@ RULE = ("case = (scale, workload, prior state, crash position k, later request);
         "request), non-trivial when the process died at the position (did not complete)")
 
 HEADER = "From Verif Require Import Prelude FsCrash FsRebuild.\nOpen Scope nat_scope.\n"
+# forms of the model a workload is compared with: pinned (False), repaired (True) and, for catalog creation / overwrite, MIXED = the
+# operation list of the pinned form (patch_ids.bin written in place) with the id-list check of the repaired one (c08_case2 false true)
+MIXED = "mixed"
+MIXED_KINDS = ("create", "overwrite")
+COQ_BOOL = {False: "false", True: "true"}
+FORM_NAME = {False: "pinned", True: "repaired", MIXED: "pinned operation list, repaired id-list check"}
 
 TAG = {"none": 0, "b1": 1, "b2": 2, "b1L": 3, "b3": 4, "b4": 5}
 VAL = {"A": 1, "B": 2}
@@ -1476,11 +1482,16 @@ def unwound_signature(c):
 
 
 def unwound_compare(ctx, header, ucases):
-    terms = []
-    for c in ucases:
-        for fixed in ("false", "true"):
-            terms.append("c08_unwound %s %s %s %d %d %s" % (fixed, c["w"]["coq_name"], c["lterm"], TAG.get(c["req"], 0), c["cls"],
+    terms, slots = [], []
+    for n, c in enumerate(ucases):
+        for fixed in (False, True):
+            slots.append((n, fixed))
+            terms.append("c08_unwound %s %s %s %d %d %s" % (COQ_BOOL[fixed], c["w"]["coq_name"], c["lterm"], TAG.get(c["req"], 0), c["cls"],
                                                            "true" if c["chk"] else "false"))
+        if c["w"]["kind"] in MIXED_KINDS:
+            slots.append((n, MIXED))
+            terms.append("c08_unwound2 false true %s %s %d %d %s" % (c["w"]["coq_name"], c["lterm"], TAG.get(c["req"], 0), c["cls"],
+                                                                    "true" if c["chk"] else "false"))
     t0 = time.time()
     # only the workloads the interrupted runs refer to (the header of the crash points holds those of every scale)
     used = {}
@@ -1489,8 +1500,10 @@ def unwound_compare(ctx, header, ucases):
     header = HEADER + "\n".join("Definition w%d : workload := %s." % (j, used[j]["term"]) for j in sorted(used)) + "\n"
     codes = ctx.shards("Unwound_C08", header, terms, shard=max(12, -(-len(terms) // 16)))
     ctx.log("interrupted runs: %d terms evaluated in Coq in %.1fs (at the same time as the crash points)" % (len(terms), time.time() - t0))
-    for n, c in enumerate(ucases):
-        c["code"] = {False: codes[2 * n], True: codes[2 * n + 1]}
+    for c in ucases:
+        c["code"] = {}
+    for (n, key), code in zip(slots, codes):
+        ucases[n]["code"][key] = code
 
 
 def unwound_verdicts(ctx, ucases):
@@ -1599,6 +1612,8 @@ def coq_compare(ctx, scales, cases, ucases=()):
     for j, (S, w) in enumerate(wl_index):
         cur, fix, hyp = codes[3 * j:3 * j + 3]
         w["ops_ok"] = {False: cur == 0, True: fix == 0}
+        if w["kind"] in MIXED_KINDS:
+            w["ops_ok"][MIXED] = cur == 0      # the operation list of the pinned form
         w["hyp"] = hyp
         if hyp != 0:
             ctx.obligation("hypotheses:%s/%s (wf prior state, valid deletion order, consistent tree caches; product: every name that "
@@ -1607,23 +1622,31 @@ def coq_compare(ctx, scales, cases, ucases=()):
                                                       " names removed=%r read=%r" % (w["nd"], w["nr"])))
     ctx.extra["hypotheses_checked"] = sum(1 for _, w in wl_index if w["hyp"] == 0)
     # (ii) crash points, both variants
-    terms = []
-    for c in cases:
+    terms, slots = [], []
+    for n, c in enumerate(cases):
         req = TAG.get(c["req"], 0)
-        for fixed in ("false", "true"):
+        for key in (False, True):
+            fixed = COQ_BOOL[key]
+            slots.append((n, key))
             if c["w"]["spec"].get("matrix"):
                 # generated rebuilds: the recovery of the model knows the numbers of bins
                 terms.append("c08_rebuild_case %s nbt %s %d %d %d" % (fixed, c["w"]["coq_name"], c["k"], req, c["cls"]))
             else:
                 terms.append("c08_case %s %s %d %d %d" % (fixed, c["w"]["coq_name"], c["k"], req, c["cls"]))
+        if c["w"]["kind"] in MIXED_KINDS:
+            # catalog creation: the operation list of the pinned form, the id-list check of the repaired one
+            slots.append((n, MIXED))
+            terms.append("c08_case2 false true %s %d %d %d" % (c["w"]["coq_name"], c["k"], req, c["cls"]))
     # (iii) interrupted runs: compiled at the same time as the crash points
     with ThreadPoolExecutor(max_workers=1) as ex:
         fut = ex.submit(unwound_compare, ctx, header, ucases) if ucases else None
         codes = ctx.shards("Cases_C08", header, terms, shard=400)
         if fut is not None:
             fut.result()
-    for n, c in enumerate(cases):
-        c["code"] = {False: codes[2 * n], True: codes[2 * n + 1]}
+    for c in cases:
+        c["code"] = {}
+    for (n, key), code in zip(slots, codes):
+        cases[n]["code"][key] = code
     return wl_index, header
 
 
@@ -1635,12 +1658,13 @@ def verdicts(ctx, wl_index, cases):
     for S, w in wl_index:
         cs = by_w.get((S.tag, w["name"]), [])
         bad = {}
-        for fixed in (False, True):
+        forms = [False, True] + ([MIXED] if w["kind"] in MIXED_KINDS else [])
+        for fixed in forms:
             n_bad = sum(1 for c in cs if c["code"][fixed] is None or c["code"][fixed] & 1)
             bad[fixed] = n_bad + (0 if w["ops_ok"][fixed] else 1000)
-        fixed = False if bad[False] <= bad[True] else True
+        fixed = min(forms, key=lambda f: bad[f])           # ties: pinned, repaired, mixed (in this order)
         w["variant"] = fixed
-        variants["%s/%s" % (S.tag, w["name"])] = ("repaired" if fixed else "pinned") + ("" if bad[fixed] == 0 else " (disagrees: %d)" % bad[fixed])
+        variants["%s/%s" % (S.tag, w["name"])] = FORM_NAME[fixed] + ("" if bad[fixed] == 0 else " (disagrees: %d)" % bad[fixed])
         # property failures first (they explain disagreements of the same case)
         for c in cs:
             if c["cls"] == 1:
@@ -1692,6 +1716,8 @@ def probes(ctx, scales, cases):
             lambda c: c["w"]["name"] == "rebuild_edges" and c["req"] == "b1" and c["pos"].startswith("after-write:trees.pkl,before-open:binning"),
         "F21 empty patch_ids.bin (create, between open and write of patch_ids.bin)":
             lambda c: c["w"]["name"] == "create" and c["pos"] == "after-open:patch_ids.bin,before-write:patch_ids.bin",
+        "F35 repaired (create: id list written aside, crash between the write of patch_ids.tmp and its rename)":
+            lambda c: c["w"]["name"] == "create" and c["pos"] == "after-write:patch_ids.tmp,before-rename:patch_ids.tmp>patch_ids.bin",
         "F18 mixed triple (corrdata_over, new .dat written, .smp still old)":
             lambda c: c["w"]["name"] == "corrdata_over" and c["pos"] == "after-write:cd.dat,before-open:cd.smp",
         "F18 under a prefix with dots (CorrData.to_files('nz_z0.2-1.4') over an older product written through the same "
@@ -1828,7 +1854,7 @@ def run(ctx):
         probes(ctx, scales, cases)
         buffering_evidence(ctx, scales)
         ctx.extra["rebuild_matrix"] = [dict(scale=S.tag, operations=len(w["ops"]), later_requests=w["requests"],
-                                            model_form_agreeing="repaired" if w.get("variant") else "pinned",
+                                            model_form_agreeing=FORM_NAME[w.get("variant", False)],
                                             disciplines_explaining_the_trace=w.get("disciplines"), **w["spec"]["matrix"])
                                        for S in scales for w in S.wl if w["spec"].get("matrix")]
         ctx.extra["crash_points"] = len(cases)
